@@ -33,6 +33,9 @@ type TransSpec struct {
 	Globals    []string // package-level variables treated as explicit state: read -> extra parameter, written -> extra result
 	WrapSigned bool     // int8/16/32/64 wrap around (swrap N) instead of being unbounded; `int` stays unbounded
 	Frags      []FragSpec
+	// [ext:T03] (gen/trans_ext03.go) -------------------------------------------------------------------------------
+	Ext03  bool                // struct-typed / pointer-to-struct / embedded fields, struct twins (type B A), composite literals, unsafe reads, slice out-params
+	Ifaces map[string][]string // interface -> the translated structs whose pointers implement it (a sum type; result position only)
 }
 
 type unsupported struct{ msg string }
@@ -59,6 +62,7 @@ type gtype struct {
 	str   bool        // [ext:T20] kSlice that is a Go string (immutable bytes)
 	arr   int64       // [ext:T20] kSlice that is a Go array [arr]T (isArr)
 	isArr bool
+	ifc   *ifaceInfo // [ext:T03] kIface
 }
 
 func (g gtype) coq() string {
@@ -72,6 +76,8 @@ func (g gtype) coq() string {
 		return "list Z"
 	case kStruct:
 		return g.st.name
+	case kIface: // [ext:T03]
+		return g.ifc.name
 	}
 	return "Z"
 }
@@ -114,6 +120,7 @@ type funcInfo struct {
 	greads, gwrites map[*globalInfo]bool // package-level state read / written (directly or through calls)
 	ignoredRecv     bool                 // a receiver of an untranslatable type that the body never mentions
 	frag            *fragInfo            // a loop fragment of a function instead of a whole function
+	nExtra03        int                  // [ext:T03] extra parameters (memory read through unsafe.Pointer)
 }
 
 type Translator struct {
@@ -127,6 +134,7 @@ type Translator struct {
 	global  map[string]bool // Coq names that locals must not shadow
 	seq     *seqState       // [seq] sequential reading of atomics, places, timed tails (trans_seq.go)
 	ext20                   // [ext:T20] state of gen/trans_ext20.go
+	ext03                   // [ext:T03] state of gen/trans_ext03.go
 }
 
 type stubImporter struct{}
@@ -134,6 +142,9 @@ type stubImporter struct{}
 func (stubImporter) Import(path string) (*types.Package, error) {
 	if p := seqStubPackage(path); p != nil { // [seq] sync/atomic, runtime, time: typed stubs
 		return p, nil
+	}
+	if path == "unsafe" { // [ext:T03] unsafe.Pointer is typed by go/types itself
+		return types.Unsafe, nil
 	}
 	p := types.NewPackage(path, filepath.Base(path))
 	if path == "errors" { // [ext:T20] errors.New has a type, so that `var ErrX = errors.New("..")` and `err == ErrX` are typed
@@ -214,6 +225,9 @@ func (t *Translator) typeOf(ty types.Type, n ast.Node) gtype {
 	case *types.Named:
 		if si := t.structs[x.Origin().Obj()]; si != nil {
 			return gtype{k: kStruct, st: si}
+		}
+		if g, ok := t.iface03(x); ok { // [ext:T03] an interface listed in TransSpec.Ifaces
+			return g
 		}
 		if x.Obj().Pkg() == nil && x.Obj().Name() == "error" { // [ext:T20]
 			return gtype{k: kErr}
@@ -317,7 +331,7 @@ func Translate(repo string, spec TransSpec) (out string, err error) {
 		t.structs[obj] = si
 		for i := 0; i < st.NumFields(); i++ {
 			f := st.Field(i)
-			if f.Embedded() {
+			if f.Embedded() && !spec.Ext03 { // [ext:T03] an embedded translated struct is a field named like its type
 				t.fail(nil, "embedded field %s of struct %s", f.Name(), sn)
 			}
 			ft := func() (g gtype) {
@@ -328,7 +342,7 @@ func Translate(repo string, spec TransSpec) (out string, err error) {
 				}()
 				return t.typeOf(f.Type(), nil)
 			}()
-			if ft.k == kStruct {
+			if ft.k == kStruct && !spec.Ext03 { // [ext:T03]
 				t.fail(nil, "struct-typed field %s.%s", sn, f.Name())
 			}
 			si.fields = append(si.fields, f.Name())
@@ -355,6 +369,7 @@ func Translate(repo string, spec TransSpec) (out string, err error) {
 		}
 		sb.WriteString(si.emit())
 	}
+	sb.WriteString(t.setup03(tpkg, spec)) // [ext:T03] struct twins, interface sums
 	// functions: roots, then callees discovered by the analysis
 	for _, fn := range spec.Funcs {
 		if t.addFunc(fn) == nil {
@@ -511,6 +526,12 @@ func (t *Translator) rootObj(e ast.Expr) (types.Object, bool) {
 			e, deep = x.X, true
 		case *ast.StarExpr:
 			e, deep = x.X, true
+		case *ast.CallExpr: // [ext:T03] a conversion (*T)(p) names the storage of p
+			a := t.convArg03(x)
+			if a == nil {
+				return nil, deep
+			}
+			e = a
 		case *ast.Ident:
 			if o := t.info.Uses[x]; o != nil {
 				return o, deep
